@@ -6,6 +6,7 @@ import (
 	"errors"
 	"fmt"
 	"io"
+	"math"
 	"unsafe"
 
 	"slices"
@@ -74,7 +75,7 @@ func branchesReposDecode(b []byte) ([]BranchRepos, error) {
 		return nil, fmt.Errorf("unsupported BranchRepos encoding version %d", v)
 	}
 
-	l := r.uvarint() // Length
+	l := r.count() // Length
 	brs := make([]BranchRepos, l)
 
 	for i := range l {
@@ -167,7 +168,7 @@ func stringSetDecode(b []byte) (map[string]struct{}, error) {
 	}
 
 	// Length
-	l := r.uvarint()
+	l := r.count()
 	set := make(map[string]struct{}, l)
 
 	for range l {
@@ -184,13 +185,28 @@ type binaryReader struct {
 
 func (b *binaryReader) uvarint() int {
 	x, n := binary.Uvarint(b.b)
-	if n < 0 {
+	// n == 0 is a truncated varint, n < 0 an overlong one. A value that does
+	// not fit in an int can not be a length or count either.
+	if n <= 0 || x > math.MaxInt {
 		b.b = nil
 		b.err = errors.New("malformed RepoBranches")
 		return 0
 	}
 	b.b = b.b[n:]
 	return int(x)
+}
+
+// count reads the number of items that follow. Every item takes at least one
+// byte, so a larger count is malformed; it is never used as an allocation
+// size or loop bound unchecked.
+func (b *binaryReader) count() int {
+	l := b.uvarint()
+	if l > len(b.b) {
+		b.b = nil
+		b.err = errors.New("malformed RepoBranches")
+		return 0
+	}
+	return l
 }
 
 func (b *binaryReader) str() string {
